@@ -244,6 +244,10 @@ def run(prog: Program, res: Result) -> None:
                 res.fail("C04.S4", file=f.file, line=r.line, qualname=f.qualname, construct=f"{norm(r.node, 60)} before escape", message=f"`{norm(r.node, 60)}` is reachable with auto_escape true without the value passing through escape(): every output statement, template string and filter argument relies on this function to escape context data", what=what)
 
     # ------------------------------------------------------------------ S3
+    res.rule("C04.S5", "a template is rendered only by the Environment it was parsed for: the caching loaders return a hit only behind an unconditional `<cached>.env is not env` test (RenderContext.auto_escape is read from template.env, so a template cached for a non-escaping environment would render unescaped in an escaping one; shared with C14.R5)")
+    from checks.shared import check_cache_hit_environment
+
+    check_cache_hit_environment(prog, res, "C04.S5")
     res.rule("C04.S3", "no other minting of safe strings: no __html__ in liquid2, no auto_escape=False at an output node, default translation filters wired to env.auto_escape, render buffers filled only by node rendering")
     for ci in prog.all_classes():
         if "__html__" in ci.methods:
